@@ -517,7 +517,7 @@ def main() -> int:
     all_problems: typing.List[str] = []
     for g in TARGETS:
         text, problems = translate_group(g, Path(args.repo))
-        all_problems += problems
+        all_problems += ["[%s] %s" % (g["module"], x) for x in problems]
         p = outdir / (g["module"].split(".")[-1] + ".lean")
         if args.print:
             print(text)
@@ -527,21 +527,21 @@ def main() -> int:
     import py2lean_layout  # noqa: E402
 
     text, problems = py2lean_layout.translate_layout(Path(args.repo))
-    all_problems += problems
+    all_problems += ["[Gen.Layout] " + x for x in problems]
     p = outdir / "Layout.lean"
     if args.print:
         print(text)
     if not p.exists() or p.read_text() != text:
         p.write_text(text)
     text, problems = py2lean_layout.translate_rules(Path(args.repo))
-    all_problems += problems
+    all_problems += ["[Gen.Rules] " + x for x in problems]
     p = outdir / "Rules.lean"
     if args.print:
         print(text)
     if not p.exists() or p.read_text() != text:
         p.write_text(text)
     text, problems = py2lean_layout.translate_namespace(Path(args.repo))
-    all_problems += problems
+    all_problems += ["[Gen.Namespace] " + x for x in problems]
     p = outdir / "Namespace.lean"
     if args.print:
         print(text)
